@@ -2,7 +2,26 @@
    Incr/StreamQueueProps.v, Incr/WorkQueueProps.v, Incr/ExploreProps.v. *)
 From GV Require Import Base.Prelude Incr.Protocol Incr.WorkQueue Incr.Publisher Incr.StreamQueue
   Incr.NodeProtocol Incr.Explore Incr.Flat Incr.Universe Incr.StreamQueueProps Incr.WorkQueueProps
-  Incr.PublisherProps Incr.FlatProps Incr.ExploreProps.
+  Incr.ProtocolProps Incr.PublisherProps Incr.FlatProps Incr.ExploreProps.
+
+(* What the executable validator means (general): in a payload stream accepted as a prefix every id
+   is announced at most once (ids are never reused) and completed at most once, only after having
+   been announced; in a stream accepted as complete every announced id is completed exactly once and
+   hasNext is true on every payload except the last. *)
+Theorem C05_validator_ids : forall parents ps,
+  valid_prefix parents ps = true ->
+  NoDup (announced_ids ps) /\ NoDup (completed_ids ps) /\
+  (forall i, In i (completed_ids ps) -> In i (announced_ids ps)).
+Proof. exact valid_prefix_ids. Qed.
+Print Assumptions C05_validator_ids.
+
+Theorem C05_validator_complete : forall parents ps,
+  valid parents ps = true ->
+  NoDup (announced_ids ps) /\ NoDup (completed_ids ps) /\
+  (forall i, In i (announced_ids ps) <-> In i (completed_ids ps)) /\
+  exists init last, ps = init ++ [last] /\ forallb pl_has_next init = true /\ pl_has_next last = false.
+Proof. exact valid_complete. Qed.
+Print Assumptions C05_validator_complete.
 
 (* Stream queue order law: for every sequence of pushes, future settlements and consumer pulls, the
    entries delivered in batches, then the terminal entry (end / failure, if the iteration ended),
